@@ -198,6 +198,20 @@ def r5_round_robin(chk: Check) -> None:
         ev = first.target.id if isinstance(first.target, ast.Name) else "example"
         top_if = first.body[0] if first.body and isinstance(first.body[0], ast.If) else None
         chk.expect(top_if is not None and bool(top_if.orelse) and phas(f"$l.append({ev}.value)", top_if.body) and phas(f"$l.append({ev}.value)", top_if.orelse), "C17.R5", fn, "every example is put into the parameter or the body bucket", "bucket shape not recognised", fn.loc(first))
+        # ... on EVERY path through the loop body (a conditional append - e.g. `if value not in bucket` - drops examples
+        # that Python's == identifies: True/1, 0/False, 1/1.0)
+        g = cfg_of(fn)
+        head = [n_.id for n_ in g.live() if n_.kind == "for" and n_.ast is first]
+        starts = [m for h in head for m, lbl in g.nodes[h].succ if lbl == "iter"]
+        apps = [nid for c_ in calls(first) if last_attr(c_) == "append" and c_.args and unparse(c_.args[0]) == f"{ev}.value" for nid in g.stmt_nodes_containing(c_)]
+        if apps and starts:
+            w = g.path(starts, head, avoid=apps, edge_ok=lambda a, b, lbl: not lbl.startswith("exc:"))
+            if w is None:
+                chk.ok("C17.R5", fn, "every example is appended to its bucket on every path", "", fn.loc(first))
+            else:
+                chk.violation("C17.R5", fn, "every example is appended to its bucket on every path",
+                              "an example can pass through the loop without being put into a bucket (a de-duplication / condition on its value): `x not in bucket` uses Python equality, so `true` after `1`, `0` after `false`, `1.0` after `1` are dropped and never sent",
+                              fn.loc(first), g.describe_path(w, fn.module.relpath))
     # bodies-only and parameters-only branches yield everything
     chk.expect(phas("yield from _produce_parameter_combinations($p)", fn.node), "C17.R5", fn, "parameters-only: all combinations", "branch not recognised", fn.loc())
     pc = P.func(f"{EX}:_produce_parameter_combinations")
